@@ -40,7 +40,11 @@ NoneType = type(None)
 # the documented table (docs/de_serialization.md, "Coercion")
 
 BOOL_WORDS = {"0": False, "1": True, "f": False, "t": True, "n": False, "y": True, "no": False, "yes": True, "false": False, "true": True, "off": False, "on": True, "ko": False, "ok": True}
-OPEN_KINDS = ("bool->int", "bool->float", "bool->str", "float->int")
+# float -> int goes through int() between numbers, so both outcomes are admitted (open).  A bool is NOT a
+# number for the statement (strict mode keeps bool distinct from numbers): bool -> int / float / str are
+# not in the documented table and must stay rejected; they are only tried to *explain* a violation
+OPEN_KINDS = ("float->int",)
+FORBIDDEN_KINDS = ("bool->int", "bool->float", "bool->str")
 
 
 def _reject(d, cls):
@@ -215,13 +219,31 @@ def outcomes(td, d, realm, opts, make_coercer) -> Tuple[List[Tuple[str, Any, CoR
 
     first, used, amb = one(OPEN_KINDS)
     res.append(first)
-    used = sorted(used)
+    used = sorted(k for k in used if k in OPEN_KINDS)
     for n in range(len(used)):
         for sub in itertools.combinations(used, n):
             o, _, a = one(sub)
             amb = amb or a
             res.append(o)
     return res, amb
+
+
+def explained_by_forbidden(td, d, value, realm, opts, make_coercer) -> Tuple[str, ...]:
+    """diagnosis only: the smallest set of conversions outside the documented table (bool taken as a
+    number) under which the reference would produce the observed value"""
+    for n in range(1, len(FORBIDDEN_KINDS) + 1):
+        for sub in itertools.combinations(FORBIDDEN_KINDS, n):
+            co = make_coercer(OPEN_KINDS + sub)
+            if not isinstance(co, Table):
+                return ()
+            ref = CoRef(realm, opts, co)
+            try:
+                ref.deser(td, copy.deepcopy(d))
+            except M.Rejected:
+                continue
+            if img_ok(td, value, ref, d):
+                return sub
+    return ()
 
 
 def img_ok(td, got, ref: CoRef, datum, c=None) -> bool:
@@ -336,6 +358,24 @@ def data_for(td, tier: str, rng: random.Random) -> List[Any]:
     return out
 
 
+# str-like targets whose values are the strings str() makes of other primitives ("True", "1", "2.5"),
+# alone and inside containers / Optional / unions / object fields (so that an undocumented conversion
+# of a bool / number into such a string would be *accepted*, not merely produce a non-member)
+BOOLSTR = Lit(("True", "False"))
+NUMSTR = Lit(("1", "2.5", "None"))
+BOOLNAME = Enm("BoolName", (("T", "True"), ("F", "False"), ("ONE", "1")))
+STRID = NewT("StrId", P.STR)
+STRID_C = NewT("StrIdC", P.STR, M.cons(min_len=4))
+STRLIKE_OBJ = Obj("dataclass", "StrLike", (M.Fld("s", P.STR), M.Fld("lit", BOOLSTR, has_default=True, default="True"), M.Fld("e", Opt(BOOLNAME), has_default=True, default=None), M.Fld("sid", STRID, has_default=True, default="id"), M.Fld("cs", Ann(P.STR, M.cons(pattern="^[TF]")), has_default=True, default="T"), M.Fld("f", P.FLOAT, has_default=True, default=0.0), M.Fld("n", P.INT, has_default=True, default=0)))
+STRLIKE_OBJS = (STRLIKE_OBJ,)
+STRLIKE_TYPES = [
+    BOOLSTR, NUMSTR, BOOLNAME, STRID, STRID_C, Ann(P.STR, M.cons(min_len=4)), Ann(P.STR, M.cons(pattern="^[TF]")),
+    Coll("list", BOOLSTR), Coll("set", STRID), Opt(BOOLSTR), Opt(BOOLNAME), Opt(STRID_C), Mapp(P.STR, BOOLSTR), Mapp(BOOLNAME, P.STR), Tup((BOOLSTR, P.STR, P.FLOAT)),
+    Uni((P.INT, BOOLSTR)), Uni((P.FLOAT, P.STR)), Uni((BOOLNAME, P.NONE, P.INT)), Lit((1, "True")), Lit((1.5, "1")),
+    STRLIKE_OBJ, Coll("list", STRLIKE_OBJ),
+]
+
+
 # ---------------------------------------------------------------------------------------------
 # custom coercers (right- and wrong-typed results)
 
@@ -428,12 +468,15 @@ def _check_against_ref(log, td, mode, d, got, realm, opts, make_coercer, meth, m
         for kind, img, ref in outs:
             if kind == "ok" and img_ok(td, got[1], ref, d):
                 return
+        via = explained_by_forbidden(td, d, got[1], realm, opts, make_coercer)
+        tag = ("-via-" + "+".join(via)) if via else ""
+        why = f" (the result is what the undocumented conversion {' / '.join(via)} gives: a bool is not a number)" if via else ""
         if any(o[0] == "ok" for o in outs):
-            _fail(log, "coerced-image", td, mode, d, f"accepted with {got[1]!r} ({type(got[1]).__name__}), which is not the typed image of the datum converted per the documented table", got, [o[:2] for o in outs][:3], meth)
+            _fail(log, "coerced-image" + tag, td, mode, d, f"accepted with {got[1]!r} ({type(got[1]).__name__}), which is not the typed image of the datum converted per the documented table{why}", got, [o[:2] for o in outs][:3], meth)
         elif any(o[2].eq_only for o in outs):
             _fail(log, "over-accept-literal-eq", td, mode, d, f"accepted (as {got[1]!r}): at a Literal / Enum position the coerced value only == a literal of another class (wrong-typed, e.g. 1.0 or True for 1)", got, [o[:2] for o in outs][:2], meth)
         else:
-            _fail(log, "over-accept", td, mode, d, f"accepted (as {got[1]!r}) although no conversion of the documented table makes the datum conform", got, [o[:2] for o in outs][:2], meth)
+            _fail(log, "over-accept" + tag, td, mode, d, f"accepted (as {got[1]!r}) although no conversion of the documented table makes the datum conform{why}", got, [o[:2] for o in outs][:2], meth)
         return
     # rejected
     if must_accept and all(o[0] == "ok" for o in outs):
@@ -446,8 +489,8 @@ def run(report, tier: str, seed: int):
     from apischema.deserialization import deserialization_method
 
     rng = random.Random(seed)
-    pool = P.type_pool(tier) + EXT_TYPES
-    realm = new_realm("coerce")
+    pool = P.type_pool(tier) + EXT_TYPES + STRLIKE_TYPES
+    realm = new_realm("coerce", STRLIKE_OBJS)
     opts = M.Opts()
     try:
         _run_main(report, tier, rng, pool, realm, opts)
